@@ -159,6 +159,12 @@ func (s *histSys) Ops() []string {
 	for h := int64(2); h <= maxH; h++ {
 		out = append(out, fmt.Sprintf("ver %d", h))
 	}
+	// a proof generated for the latest height, stated under another stored height
+	for _, t := range stored {
+		if t != s.m.Latest {
+			out = append(out, fmt.Sprintf("vermis %d", t))
+		}
+	}
 	return out
 }
 
@@ -262,6 +268,22 @@ func (s *histSys) Apply(op string) (obs, class string, viols []bfs.Viol) {
 			s.m.Latest = uint64(h)
 		}
 		return "accepted", class, viols
+	case "vermis":
+		var h int64
+		fmt.Sscan(f[1], &h)
+		proof, _, _ := s.cp.c.QueryProof(host.PacketCommitmentKey("cp-1", "teleport_9000-10", 1), int64(s.m.Latest))
+		cs, _ := s.h.C.App.XIBCKeeper.ClientKeeper.GetClientState(s.ctx, Client)
+		st := s.h.C.App.XIBCKeeper.ClientKeeper.ClientStore(s.ctx, Client)
+		err := cs.VerifyPacketCommitment(s.ctx, st, s.h.C.App.AppCodec(), clienttypes.NewHeight(1, uint64(h)), proof, "cp-1", "teleport_9000-10", 1, s.cp.value)
+		sameRoot := string(s.m.Cons[uint64(h)].Root) == string(s.m.Cons[s.m.Latest].Root)
+		if err == nil && !sameRoot {
+			add("proof-for-another-height-honoured", fmt.Sprintf("a proof generated for the latest height %d is honoured under the stated height %d, whose stored root is a different one", s.m.Latest, h))
+		}
+		class = "proof of the latest height under another stated height refused"
+		if err == nil {
+			class = "proof of the latest height under another stated height honoured"
+		}
+		return class, class, viols
 	case "ver":
 		var h int64
 		fmt.Sscan(f[1], &h)
